@@ -352,7 +352,14 @@ def fold_name(name: str, mod: Mod, prog: Optional[Program] = None, depth=0):
         vals = mod.assigns[name]
         if len(vals) != 1 or not isinstance(vals[0], ast.expr) or _filled_later(name, mod):
             return _module_exec(name, mod, prog, len(vals))
-        return fold(vals[0], mod, None, prog, depth + 1)
+        try:
+            return fold(vals[0], mod, None, prog, depth + 1)
+        except Unknown as first:
+            # outside the folder's expression subset (a comprehension, a conditional ...): the evaluator's turn
+            try:
+                return _module_exec(name, mod, prog, 1)
+            except Unknown:
+                raise first
     if name in mod.imports:
         src, orig = mod.imports[name]
         m2 = prog.mod_by_dotted(src)
